@@ -57,7 +57,7 @@ class P(Process):
                # a falsy non-numeric value that must still be emitted
                'b': {'off_' + n: {'_default': False, '_updater': 'set',
                                   '_emit': True}}}
-        if self.parameters['via'] == 'branch':
+        if self.parameters['via'] in ('branch', 'store_schema'):
             # leaves carry their own flags; the branch-level flag given through
             # store_schema must override all of them
             lf = self.parameters['leaf_flags']
@@ -298,6 +298,11 @@ def body(ctx, cfg):
                 flags[p] = p != ('s', 'x_p1')
     for n in ('p0', 'p1'):
         flags[('b', 'off_' + n)] = True
+    if cfg['via'] == 'store_schema':
+        # the leaves declare their own flags; the per-leaf store_schema entry
+        # must override them in both directions
+        lf = ctx.flag('lf')
+        CTX['leaf_flags'] = [lf, not lf, True]
     if not all(flags.values()):
         ctx.goal('flag off')
     es = cfg['es']
